@@ -4,6 +4,8 @@ go 1.19
 
 require (
 	github.com/SKAARHOJ/rawpanel-lib v0.0.0
+	github.com/s00500/env_logger v0.1.29
+	github.com/sirupsen/logrus v1.9.3
 	google.golang.org/protobuf v1.34.1
 )
 
@@ -11,8 +13,6 @@ require (
 	github.com/SKAARHOJ/ibeam-lib-utils v1.0.0 // indirect
 	github.com/mattn/go-colorable v0.1.13 // indirect
 	github.com/mattn/go-isatty v0.0.20 // indirect
-	github.com/s00500/env_logger v0.1.29 // indirect
-	github.com/sirupsen/logrus v1.9.3 // indirect
 	go.uber.org/atomic v1.11.0 // indirect
 	golang.org/x/sys v0.20.0 // indirect
 )
